@@ -56,7 +56,7 @@ REQUIRED_BRANCHES = ['flag0', 'flag1', 'flag2', 'flag3', 'flag4', 'flag9', 'conf
                      'rep_list_float', 'rep_tuple_float', 'rep_valid_float', 'rep_valid_int32', 'rep_noncontiguous',
                      'rep_valid_uint8', 'rep_valid_uint16', 'rep_valid_int8', 'rep_route_ascii', 'rep_route_dict', 'rep_route_copy',
                      'rep_route_deepcopy', 'rep_route_pickle', 'rep_route_attributes_reordered',
-                     'dist_remove_resolved', 'resolved_mask_on_steep_band', 'resolved_changes_result', 'pair_flag4_on_resolving_band',
+                     'near_tie_forbidden_side', 'near_tie_allowed_side', 'dist_remove_resolved', 'resolved_mask_on_steep_band', 'resolved_changes_result', 'pair_flag4_on_resolving_band',
                      'low_snr', 'same_object_valid', 'same_object_flux', 'same_object_error', 'same_object_combined']
 ASSUMPTIONS = ['IEEE rounding is not modelled: model comparison tolerance 1e-9 x condition number; paired real runs are '
                'compared to 1e-12 relative (they are bit-identical on the unchanged tree)',
@@ -1063,6 +1063,29 @@ def check_mode(case, mode, fitter, names, use_model, branches, stats):
                     # ranking is C04's clause
                     return CaseResult(False, violates=None, branches=branches,
                                       detail='%s mode: chi2 not sorted: %r (C04)' % (mode, res[k]['chi2'].tolist()))
+        # near-ties: limits placed 1e-6 / 3e-6 dex on either side of what a model predicts (well outside the 1e-9 margin of the
+        # arithmetic check, so the exact comparison decides): the penalty must be there on the forbidden side and only there
+        if 'limits_off' in res and not masked and tie_name is None:
+            off = res['limits_off']
+            row0 = 0
+            pred0 = off['model_fluxes'][row0]
+            if np.all(np.isfinite(pred0)) and np.all(np.abs(pred0) < 200.):
+                for rnd, deltas in enumerate(([1e-6, -1e-6, 3e-6, -3e-6], [-1e-6, 1e-6, -3e-6, 3e-6])):
+                    near = dict(flags=list(S['flags']), flux=list(S['flux']), err=list(S['err']))
+                    for j, f in enumerate(S['flags']):
+                        if f in (2, 3):
+                            dlt = deltas[j % 4]
+                            near['flux'][j] = float(10. ** (float(pred0[j]) + dlt))
+                            near['err'][j] = 0.9 if S['err'][j] in (0., 1.) else S['err'][j]
+                            forb = (dlt > 0) if f == 2 else (dlt < 0)
+                            branches.add('near_tie_forbidden_side' if forb else 'near_tie_allowed_side')
+                    rn = run_fit(fitter, near, 'near')
+                    err, rel = arithmetic(near, rn, branches, mode=mode)
+                    stats['relaxed'] += rel
+                    if err:
+                        return CaseResult(False, violates=True, branches=branches,
+                                          detail='%s mode, near-tie limits (1e-6 / 3e-6 dex from the prediction of model %s): %s'
+                                                 % (mode, off['name'][row0], err))
         # representation of the photometry (dtype, byte order, writeability, container)
         viol, det = representation_checks(fitter, S, vi, cond, branches, masked=masked)
         if det:
